@@ -344,6 +344,11 @@ def cancellation(ctx: Ctx, timing: bool = True):
         return "other:" + flow.dump(p.value)[:60]
 
     rows = cmp.path_table(flow.paths(fn.node), {f"{sim}.sim_time": "now", T: "T"}, label, grid=range(0, 3))
+    # a request id that is not in the state: the pinned code raises KeyError there (it subscripts sim.requests); the ids folded over are
+    # the state's own, so the case is outside the property -- rows in which the request is absent are not judged
+    ABSENT = {(f"{sim}.requests.get({rid}) is None", True), (f"{sim}.requests.get({rid}) is not None", False), (f"{sim}.requests.get({rid})", False),
+              (f"not {sim}.requests.get({rid})", True), (f"{rid} not in {sim}.requests", True), (f"{rid} in {sim}.requests", False)}
+    rows = [r for r in rows if not any((k, v) in ABSENT for k, v in r[1].items())]
     def spec(g, f):
         if g["now"] >= g["T"]:
             return None  # remove, unless remove_request itself failed (free atoms): checked below
